@@ -1699,8 +1699,8 @@ def translate(repo):
 
 # ----------------------------------------------------------------------------- further fns tied BY SHAPE (not rendered)
 
-# These fns work on rowan trees / the symbol table / tokio locks; the hand model (Host.v: index_items, document_link,
-# touch) abstracts them.  They are compared token by token, up to the names of parameters and locals, comments, layout,
+# These fns work on rowan trees / the symbol table / tokio locks; the hand model (Host.v: index_items, touch) abstracts them
+# (handlers/document_link.rs exec is tied by translation + proof: group outline's t_handlers.py, props/HostHandlersSource.v).  They are compared token by token, up to the names of parameters and locals, comments, layout,
 # log macros and `#[cfg(tablegen_lsp_verif)]` hook statements, with the shape the model was written from.  A difference
 # is reported as a broken tie (the model has to be re-validated against the new text), never silently accepted.
 from rsutil import matching_brace  # noqa: E402
@@ -1808,7 +1808,6 @@ SHAPED = [
     ("crates/ide/src/index/context.rs", r"impl<'a>\s+IndexCtx<'a>\s*\{", "current_file_id"),
     ("crates/ide/src/index/context.rs", r"impl<'a>\s+IndexCtx<'a>\s*\{", "push_file"),
     ("crates/ide/src/index/context.rs", r"impl<'a>\s+IndexCtx<'a>\s*\{", "pop_file"),
-    ("crates/ide/src/handlers/document_link.rs", r"", "exec"),
     ("crates/lsp/src/server.rs", r"impl\s+Server\s*\{", "set_file_content"),
 ]
 
@@ -1824,8 +1823,6 @@ EXPECTED_SHAPES = {
         'fn push_file ( & mut self , L0 : FileId ) { self . file_trace . push ( L0 ) ; }',
     ('crates/ide/src/index/context.rs', 'pop_file'):
         'fn pop_file ( & mut self ) { self . file_trace . pop ( ) . expect ( "file_trace is empty" ) ; }',
-    ('crates/ide/src/handlers/document_link.rs', 'exec'):
-        'fn exec ( L0 : & dyn IndexDatabase , L1 : FileId ) -> Option < Vec < DocumentLink > > { let L2 = L0 . resolved_include_map ( L1 ) ; let L3 = L0 . parse ( L1 ) ; let L4 = L3 . syntax_node ( ) ; let L5 = L4 . descendants ( ) . filter_map ( | L6 | { let L7 = ast :: Include :: cast ( L6 ) ? ; let L8 = IncludeId ( SyntaxNodePtr :: new ( L7 . syntax ( ) ) ) ; let L9 = utils :: range_excluding_trivia ( L7 . path ( ) ? . syntax ( ) ) ; let L10 = * L2 . get ( & L8 ) ? ; Some ( DocumentLink { L9 , L10 } ) } ) . collect ( ) ; Some ( L5 ) }',
     ('crates/lsp/src/server.rs', 'set_file_content'):
         'fn set_file_content ( & mut self , L0 : & Url , L1 : & str ) { let L2 = UrlExt :: to_file_path ( L0 ) ; self . host . wait_for_snapshots ( ) ; let mut L3 = self . vfs . write ( ) . unwrap ( ) ; L3 . set_open_document ( L2 . clone ( ) , L1 . to_string ( ) ) ; let L4 = L3 . assign_or_get_file_id ( L2 ) ; let L1 = Arc :: from ( L1 ) ; self . host . set_file_content ( L4 , L1 ) ; self . host . set_root_file ( & mut * L3 , L4 ) ; }',
 }
